@@ -194,8 +194,15 @@ impl Local {
         *self.extra.entry(key.to_string()).or_insert(0) += n;
     }
 
-    /// Records a violation found at enumeration position `order` (smaller = simpler).
-    pub fn violation(&mut self, order: u64, v: Viol) {
+    /// Records a violation found at enumeration position `idx` (as handed to the slice
+    /// closure; smaller = simpler).
+    pub fn violation(&mut self, idx: u64, v: Viol) {
+        self.violation_sub(idx, 0, v)
+    }
+
+    /// Same, for the `sub`-th case explored under enumeration position `idx`.
+    pub fn violation_sub(&mut self, idx: u64, sub: u64, v: Viol) {
+        let order = ((idx >> 40) << 56) | ((idx & ((1 << 40) - 1)) << 16) | sub.min(0xffff);
         match self.viols.get_mut(&v.sig) {
             Some(e) => {
                 e.1 += 1;
